@@ -14,6 +14,7 @@
 (*        16 VertexLevelBehind (a vertex level with s but not on the ray), 32 RayThroughOpenEnd,     *)
 (*        64 RayThroughZeroTangentEnd (end of a cubic whose control point coincides with it),        *)
 (*        1024 RayThroughCubicEnd (a vertex on the ray is an end point of a cubic Bezier),            *)
+(*        2048 RayLevelWithCubicInflection (the ray is level with a horizontal inflection point),     *)
 (*        128 (boundary points only) the point itself is such a zero-tangent end,                    *)
 (*        256 (boundary points only) the point lies on a cubic (end point or dyadic point),          *)
 (*        512 (boundary points only) the point lies on a quadratic Bezier (end points included)      *)
@@ -31,7 +32,7 @@ EXTENDS CurveGen, Json, Randomization
 CONSTANTS N,        \* control lattice 0..N
           K,        \* vertices per polygon contour / pieces per curve contour
           NC,       \* contours
-          Mode,     \* "polyall" | "polyrand" | "curves" (CurveGen templates)
+          Mode,     \* "polyall" | "polyrand" | "curves" (CurveGen templates) | "special" (the SpecialCtrs family below)
           Kinds,    \* curves: subset of {"L","Q","C","A"} the segments are drawn from
           Num       \* random: scenarios per RandomSubset
 
@@ -45,6 +46,38 @@ QPt(i) == <<QLo + ((i - 1) % QW), QLo + ((i - 1) \div QW)>>
 
 Poly(c) == Ctr(c[1], [i \in 1..(Len(c) - 1) |-> Ln(c[i + 1])], TRUE)
 
+\* ---- a deterministic family of contours that are simple by construction and hit two special mechanisms ------------
+\* (needs N >= 8).  (1) S-shaped cubics with a HORIZONTAL INFLECTION POINT on the lattice: control points
+\* (x0, y0 - e b) (x0 + a, y0 + e b) (x0 + 2a, y0 - e b) (x0 + 3a, y0 + e b): y'(1/2) = y''(1/2) = 0 at (x0 + 3a/2, y0); the
+\* curve is a graph over x, closed by a box above or below it, traversed in either direction.  A ray level with the
+\* inflection point crosses the curve there although it is parallel to the tangent.  (2) contours whose right-most
+\* vertex is a CUSP: a curve arrives moving right with a horizontal tangent and a line (or a curve of other curvature,
+\* or the closing line) leaves to the left along the same tangent; mirror images and reversed traversals.
+SCubic(x0, y0, a, b, e, rev, up) ==
+    LET p0 == <<x0, y0 - e * b>> p1 == <<x0 + a, y0 + e * b>> p2 == <<x0 + 2 * a, y0 - e * b>> p3 == <<x0 + 3 * a, y0 + e * b>>
+        yt == IF up THEN y0 + b + 1 ELSE y0 - b - 1
+    IN IF rev THEN Ctr(p3, <<Cb(p2, p1, p0), Ln(<<p0[1], yt>>), Ln(<<p3[1], yt>>)>>, TRUE)
+       ELSE Ctr(p0, <<Cb(p1, p2, p3), Ln(<<p3[1], yt>>), Ln(<<p0[1], yt>>)>>, TRUE)
+\* cusp shapes: o = offset, r = size, m = +1 / -1 mirrors in y (and flips every sweep flag)
+Cusp(kind, o, r, m) ==
+    LET T(x, y) == <<o[1] + x, o[2] + m * y>>
+        sw(f) == IF m = 1 THEN f ELSE 1 - f
+        arc(cx, cy, rx, ry, f, ex, ey) == Ar(T(cx, cy), <<rx, ry>>, 0, 0, sw(f), T(ex, ey))
+    IN CASE kind = 1 -> Ctr(T(0, 0), <<arc(r, 0, r, r, 0, r, r), Ln(T(0, r))>>, TRUE)                         \* arc in, line out
+         [] kind = 2 -> Ctr(T(0, 0), <<Qd(T(0, r), T(r, r)), Ln(T(0, r))>>, TRUE)                            \* quadratic in, line out
+         [] kind = 3 -> Ctr(T(0, 0), <<Cb(T(0, r - 1), T(1, r), T(r, r)), Ln(T(0, r))>>, TRUE)               \* cubic in, line out
+         [] kind = 4 -> Ctr(T(0, 0), <<arc(2 * r, 0, 2 * r, r, 0, 2 * r, r), Ln(T(0, r))>>, TRUE)            \* elliptical arc in, line out
+         [] kind = 5 -> Ctr(T(0, r), <<Ln(T(0, 0)), arc(r, 0, r, r, 0, r, r)>>, TRUE)                         \* arc in, closing line out
+         [] kind = 6 -> Ctr(T(0, r), <<Ln(T(r, r)), arc(r, 0, r, r, 1, 0, 0)>>, TRUE)                         \* line in, arc out
+         [] kind = 7 -> Ctr(T(0, 0), <<arc(2 * r, 0, 2 * r, 2 * r, 0, 2 * r, 2 * r), arc(2 * r, r, r, r, 1, r, r)>>, TRUE)   \* big arc in, small arc out
+         [] kind = 8 -> Ctr(T(0, 0), <<Ln(T(r, r)), arc(2 * r, r, r, r, 0, 2 * r, 2 * r), arc(2 * r, 0, 2 * r, 2 * r, 1, 0, 0)>>, TRUE)  \* small arc in, big arc out
+         [] kind = 9 -> Ctr(T(0, r), <<Ln(T(0, 0)), Qd(T(0, r), T(r, r))>>, TRUE)                            \* quadratic in, closing line out
+SpecialCtrs ==
+    {SCubic(1, 3, a, b, e, rev, up) : a \in {1, 2}, b \in {1, 2}, e \in {-1, 1}, rev \in BOOLEAN, up \in BOOLEAN}
+    \cup {Cusp(k, o, r, m) : k \in {1, 2, 3, 5, 6, 9}, o \in {<<1, 4>>, <<3, 4>>}, r \in {2, 3, 4}, m \in {-1, 1}}
+    \cup {Cusp(4, <<1, 4>>, r, m) : r \in {2, 3}, m \in {-1, 1}}
+    \cup {Cusp(k, o, r, m) : k \in {7, 8}, o \in {<<1, 4>>, <<2, 4>>}, r \in {1, 2}, m \in {-1, 1}}
+
 VARIABLES path, done
 vars == <<path, done>>
 
@@ -57,6 +90,8 @@ PathChoice ==
       [] Mode = "curves"   -> IF NC = 1 THEN {<<DecodeCtr(GenVec(sd), N, Kinds, FamSet)>> : sd \in RandomSubset(Num, GenSeeds)}
                               ELSE {<<DecodeCtr(GenVec(sd), N, Kinds, FamSet), DecodeCtr(GenVec(se + 7919 * (sd % 3)), N, Kinds \cup {"L"}, FamSet)>> :
                                         sd \in RandomSubset(Num, GenSeeds), se \in RandomSubset(2, 1..1000000000)}
+
+      [] Mode = "special"  -> {<<c>> : c \in SpecialCtrs}
 
 P == ScalePath(SC, path)
 
@@ -108,6 +143,13 @@ TangentCurveC(c, s) == \E i \in 1..Len(c.segs) : LET a == SegStart(c, i) g == c.
                          \/ (g.k = "A" /\ ArcTanY(a, g, s))
                          \/ (g.k = "C" /\ CubLevel(a, g, s) /\ ~CubMonoY(a, g))
 
+\* the ray is level with a HORIZONTAL INFLECTION point of the cubic cb = <<p0, p1, p2, p3>>: y(t) = y* + a (t - t0)^3 with
+\* 0 < t0 < 1 and y* = s.y.  Power basis a t^3 + b t^2 + c t + d: y' has a double root iff b^2 = 3 a c, t0 = -b/(3a),
+\* y(t0) = d - b^3 / (27 a^2).  The curve crosses the ray there although it is parallel to it.
+InflLevel(cb, s) == LET y0 == cb[1][2] y1 == cb[2][2] y2 == cb[3][2] y3 == cb[4][2]
+                        a == -y0 + 3 * y1 - 3 * y2 + y3 b == 3 * y0 - 6 * y1 + 3 * y2 c == -3 * y0 + 3 * y1
+                    IN /\ a # 0 /\ b * b = 3 * a * c /\ (-b) * a > 0 /\ Abs(b) < 3 * Abs(a)
+                       /\ 27 * a * a * (s[2] - y0) = -(b * b * b)
 \* path-level data computed once per scenario: vertices, straight edges, non-degenerate drawn segments per contour
 ZeroTanEnds(c) == UNION {LET a == SegStart(c, i) g == c.segs[i] IN
                            IF g.k # "C" THEN {} ELSE (IF g.c1 = a THEN {a} ELSE {}) \cup (IF g.c2 = g.p THEN {g.p} ELSE {}) : i \in 1..Len(c.segs)}
@@ -147,8 +189,9 @@ FeatD(p, pd, s) ==
         f32 == f1 /\ \E j \in 1..Len(p) : OpenEndD(pd.dr[j], s)
         f64 == \E v \in pd.zt : Ahead(s, v)
         f1024 == \E v \in pd.ce : Ahead(s, v)
+        f2048 == \E cb \in pd.cubs : InflLevel(cb, s)
     IN (IF f1 THEN 1 ELSE 0) + (IF f2 THEN 2 ELSE 0) + (IF f4 THEN 4 ELSE 0) + (IF f8 THEN 8 ELSE 0)
-       + (IF f16 THEN 16 ELSE 0) + (IF f32 THEN 32 ELSE 0) + (IF f64 THEN 64 ELSE 0) + (IF f1024 THEN 1024 ELSE 0)
+       + (IF f16 THEN 16 ELSE 0) + (IF f32 THEN 32 ELSE 0) + (IF f64 THEN 64 ELSE 0) + (IF f1024 THEN 1024 ELSE 0) + (IF f2048 THEN 2048 ELSE 0)
 Feat(p, s) == FeatD(p, PData(p), s)
 
 \* ---- crossings of a ray in general position --------------------------------------------------------------------
@@ -202,7 +245,7 @@ SimpleCurve(c) ==
     \/ (n = 2 /\ c.segs[1].k = "A" /\ c.segs[2].k = "A" /\ c.segs[2].p = c.s /\ c.segs[1].sw = c.segs[2].sw   \* full ellipse
           /\ c.segs[1].c1 = c.segs[2].c1 /\ c.segs[1].c2 = c.segs[2].c2 /\ c.segs[1].rot = c.segs[2].rot)
     \/ (n = 2 /\ c.segs[1].k = "L" /\ c.segs[2].k = "A" /\ c.s = c.segs[2].c1 /\ c.s # c.segs[1].p)            \* pie
-SimpleC(c) == IF AllLines(c) THEN SimplePoly(PolyVerts(c)) ELSE SimpleCurve(c)
+SimpleC(c) == IF AllLines(c) THEN SimplePoly(PolyVerts(c)) ELSE (Mode = "special" \/ SimpleCurve(c))    \* SpecialCtrs are simple by construction
 
 \* orientation of simple contour c (scaled): +1 / -1, 0 = unknown
 Orient(c) == IF ~SimpleC(c) THEN 0
